@@ -126,7 +126,7 @@ def fmt(n, adj, request):
     return "deps{%s} request[%s]" % (",".join("t%d>t%d" % e for e in edges(n, adj)), ",".join("t%d" % i for i in request))
 
 
-def execute(n, adj, request, via):
+def execute(n, adj, request, via, project=None):
     """Run the real runner; returns (kind, detail, history) with kind in ok / loop / exc."""
     from ppci.build.tasks import TaskRunner, TaskError
     import sys
@@ -145,7 +145,7 @@ def execute(n, adj, request, via):
             from ppci import api
             api.construct(io.StringIO(recipe_xml(n, adj)), [nm[i] for i in request])
         else:
-            TaskRunner().run(build_project(n, adj), [nm[i] for i in request])
+            TaskRunner().run(project if project is not None else build_project(n, adj), [nm[i] for i in request])
     except TaskError as ex:
         return "loop", ex, list(HISTORY)
     except Exception as ex:  # noqa
@@ -216,6 +216,52 @@ def check_config(p, n, adj, request, via="direct"):
     return len(hist)
 
 
+def outcome_of(res):
+    kind, detail, hist = res
+    return (kind, type(detail).__name__ if kind == "exc" else None, tuple(a for a, _ in hist))
+
+
+def history_worker(p, shard, n):
+    register()
+    """K2 'start from non-initial states': two-step histories on ONE Project object -- run(request1) [which may end in a loop
+    report], optionally add_dependency(i, j), then run(request2).  The second run on the re-used project must behave exactly
+    like the same request on a freshly built project with the current graph (which the main family judges against the reference)."""
+    from vf.gen.graphs import adj_from_code
+    nm = names(n)
+    subsets = [[i for i in range(n) if m >> i & 1] for m in range(1, 1 << n)]
+    edits = [None] + [(i, j) for i in range(n) for j in range(n)]
+    for code in shard:
+        adj0 = list(adj_from_code(n, code, True))
+        for r1 in subsets:
+            for ed in edits:
+                if ed is not None and adj0[ed[0]] >> ed[1] & 1:
+                    continue  # edge already present: nothing new
+                adj = list(adj0)
+                if ed is not None:
+                    adj[ed[0]] |= 1 << ed[1]
+                for r2 in subsets:
+                    proj = build_project(n, adj0)
+                    first = execute(n, adj0, r1, "direct", project=proj)
+                    if ed is not None:
+                        proj.get_target(nm[ed[0]]).add_dependency(nm[ed[1]])
+                    p.add()
+                    p.count("history_runs")
+                    got = outcome_of(execute(n, adj, r2, "direct", project=proj))
+                    want = outcome_of(execute(n, adj, r2, "direct"))
+                    if got != want:
+                        wit = {"history": True, "n": n, "adj": list(adj0), "first": r1, "edit": list(ed) if ed else None, "request": r2}
+                        p.violation("history/after-%s%s/differs-from-fresh-project" % (first[0], "+add_dependency" if ed else ""),
+                                    "%s: after run(%s) -> %s%s, run(%s) on the same Project gives %r; a fresh project with the same graph gives %r" % (
+                                        fmt(n, adj0, r1), ",".join(nm[i] for i in r1), first[0],
+                                        (" and add_dependency(%s, %s)" % (nm[ed[0]], nm[ed[1]])) if ed else "",
+                                        ",".join(nm[i] for i in r2), got, want), wit)
+                    elif len(got[2]) >= 2:
+                        p.outcome(("hist", got))
+
+
+GRAPHS = {}
+
+
 def requests(n, mode):
     """Requested lists: every non-empty subset; mode 'perm' = every order, 'updown' = ascending and descending, 'up' = ascending."""
     out = []
@@ -273,6 +319,14 @@ def run(ctx):
             (5, False, 251, True, "direct") if ctx.quick else (5, False, 1021, False, "direct")]
     for n, loops, nparts, only_dags, via in plan:
         ctx.pmap(worker, list(range(nparts)), extra=(n, loops, nparts, only_dags, via))
+    # histories on one Project object (non-initial states): all graphs with n <= 2 (quick: n = 3 graphs sliced by seed) 
+    from vf.gen.graphs import ncodes
+    for hn in (1, 2, 3):
+        codes = list(range(ncodes(hn, True)))
+        if hn == 3 and ctx.quick:
+            codes = codes[ctx.seed % 8::8]
+        ctx.pmap(history_worker, codes, extra=(hn,))
+    ctx.note("history_family", "two-step histories run(r1) [+ add_dependency] ; run(r2) on one Project, n <= 3, compared with a fresh project")
     # enumerator self-check
     expect = {1: 2, 2: 16, 3: 512, 4: 65536, 5: 29281 if ctx.quick else 1 << 20}
     for n, e in expect.items():
@@ -309,7 +363,20 @@ def sub_main():
                       "violations": {k: [o, w, wit] for k, (o, w, wit) in p.violations.items()}}))
 
 
+def replay_history(w):
+    from vf.core import Partial
+    from vf.gen.graphs import code_from_adj
+    p = Partial()
+    register()
+    history_worker(p, [code_from_adj(w["n"], w["adj"], True)], w["n"])
+    for k, v in p.violations.items():
+        return True, v[1]
+    return False, "re-used project behaves like a fresh one"
+
+
 def replay(w):
+    if w.get("history"):
+        return replay_history(w)
     import os
     import sys
     import json
